@@ -682,6 +682,61 @@ pub fn sweeps(thorough: bool) -> Vec<(Program, String)> {
 		add(with_ns(prog(vec![st(vec![pl(Ty::Gen(1, vec![i32_()])), pl(Ty::Gen(1, vec![str_()]))]), Def::Generic { shape: 0 }]), 1, ns), &format!("generic shape 0 at i32 and String, {tag}"));
 	}
 
+	// S10: paths of the derive macro that no other program reaches
+	// (1) logical type inferred from the NAME of the field's type (`Uuid`), schema type forced to string
+	let car = |lg: Option<Lg>, carrier: Carrier| FieldTy::Carried { lg, carrier };
+	let uu = |q: bool| car(None, Carrier::LocalUuid { qualified: q });
+	add(prog(vec![st(vec![uu(false)])]), "inferred uuid: field of a type named Uuid");
+	add(prog(vec![st(vec![uu(true), pl(str_())])]), "inferred uuid: field of type rt::Uuid (module path), then a plain String");
+	add(prog(vec![st(vec![pl(str_()), uu(false), FieldTy::Logical(Lg::Uuid), uu(true)])]), "inferred uuid: plain String, Uuid-named type, uuid attribute, Uuid-named type");
+	add(prog(vec![st(vec![pl(nm(1)), pl(vec_(nm(1)))]), st(vec![uu(false), pl(i32_())])]), "inferred uuid: in a nested, shared record");
+	add(prog(vec![Def::Newtype { field: uu(false) }]), "inferred uuid: newtype struct over a type named Uuid");
+	add(prog(vec![st(vec![car(Some(Lg::Uuid), Carrier::LocalUuid { qualified: false }), car(Some(Lg::Alt(Box::new(Lg::Uuid))), Carrier::Transparent(Leaf::Str))])]), "inferred uuid: Uuid-named type and transparent string newtype with the explicit attribute");
+	// (2) explicit logical type on a field whose Rust type is not the canonical one: the macro
+	// substitutes the schema type (transparent newtypes, other integer widths within range)
+	let subst: Vec<(Lg, Vec<Carrier>, Leaf)> = vec![
+		(Lg::Uuid, vec![Carrier::Transparent(Leaf::Str)], Leaf::Str),
+		(Lg::TsMillis, vec![Carrier::Transparent(Leaf::I64), Carrier::Int(Leaf::U32), Carrier::Int(Leaf::I32), Carrier::Int(Leaf::U64)], Leaf::I64),
+		(Lg::TsMicros, vec![Carrier::Transparent(Leaf::I64), Carrier::Int(Leaf::U32), Carrier::Int(Leaf::Usize)], Leaf::I64),
+		(Lg::TimeMicros, vec![Carrier::Transparent(Leaf::I64), Carrier::Int(Leaf::U16)], Leaf::I64),
+		(Lg::TimeMillis, vec![Carrier::Transparent(Leaf::I32), Carrier::Int(Leaf::U16), Carrier::Int(Leaf::I16)], Leaf::I32),
+		(Lg::Date, vec![Carrier::Transparent(Leaf::I32), Carrier::Int(Leaf::I8), Carrier::Int(Leaf::U16), Carrier::Int(Leaf::U32)], Leaf::I32),
+	];
+	for (l, carriers, base) in &subst {
+		let n = Placed::logical_name(l);
+		for c in carriers {
+			add(prog(vec![st(vec![car(Some(l.clone()), c.clone()), pl(lf(*base))])]), &format!("substituted type: logical {n} on a {c:?} field, then the plain base type"));
+		}
+		let mut all: Vec<FieldTy> = carriers.iter().map(|c| car(Some(l.clone()), c.clone())).collect();
+		all.push(FieldTy::Logical(l.clone()));
+		add(prog(vec![st(vec![pl(nm(1)), pl(opt(nm(1)))]), st(all)]), &format!("substituted type: every carrier of logical {n} in one nested record"));
+	}
+	add(prog(vec![Def::Newtype { field: car(Some(Lg::TsMillis), Carrier::Transparent(Leaf::I64)) }]), "substituted type: newtype struct with timestamp-millis over a transparent i64 newtype");
+	// (3) const generics and generic newtype structs
+	let cg = |n: usize| Ty::Gen(1, vec![Ty::Const(n)]);
+	for ns in [None, Some("ns1"), Some("")] {
+		let tag = ns.map_or("no namespace attribute".to_owned(), |n| format!("namespace = \"{n}\""));
+		add(with_ns(prog(vec![st(vec![pl(cg(4))]), Def::Generic { shape: 7 }]), 1, ns), &format!("const generic struct at one N, {tag}"));
+		add(with_ns(prog(vec![st(vec![pl(cg(4)), pl(cg(16))]), Def::Generic { shape: 7 }]), 1, ns), &format!("const generic struct at two N, {tag}"));
+		let g = |t: Ty| Ty::Gen(1, vec![t]);
+		add(with_ns(prog(vec![st(vec![pl(g(str_())), pl(g(lf(Leaf::I64)))]), Def::Generic { shape: 8 }]), 1, ns), &format!("generic newtype struct with a logical type at String and i64, {tag}"));
+		add(with_ns(prog(vec![st(vec![pl(g(nm(2)))]), Def::Generic { shape: 8 }, Def::Newtype { field: FieldTy::Fixed(4) }]), 1, ns), &format!("generic newtype struct with a logical type owning a fixed, one instantiation, {tag}"));
+		add(
+			with_ns(prog(vec![st(vec![pl(g(nm(2))), pl(g(nm(3)))]), Def::Generic { shape: 8 }, Def::Newtype { field: FieldTy::Fixed(4) }, Def::Newtype { field: FieldTy::Fixed(16) }]), 1, ns),
+			&format!("generic newtype struct with a logical type owning a fixed, two instantiations, {tag}"),
+		);
+	}
+	add(prog(vec![st(vec![pl(cg(4)), pl(vec_(cg(16))), pl(opt(cg(4))), pl(cg(0))]), Def::Generic { shape: 7 }]), "const generic struct at three N, shared, in Vec and Option");
+	add(prog(vec![st(vec![pl(Ty::Gen(1, vec![i32_()])), pl(Ty::Gen(1, vec![str_()])), pl(vec_(Ty::Gen(1, vec![nm(2)])))]), Def::Generic { shape: 9 }, s2()]), "generic newtype struct over Option<T> at i32, String and a record");
+	add(prog(vec![st(vec![pl(Ty::Gen(1, vec![Ty::Gen(2, vec![i32_()])])), pl(Ty::Gen(2, vec![str_()]))]), Def::Generic { shape: 9 }, Def::Generic { shape: 1 }]), "generic newtype structs nested: P<W<i32>> and W<String>");
+	// (4) skipped members: the type of a skipped field / variant payload implements neither
+	// BuildSchema nor Serialize; serde skips it too, so the values still round-trip
+	add(prog(vec![st(vec![FieldTy::Skipped, pl(i32_()), pl(str_())])]), "skip: first field skipped");
+	add(prog(vec![st(vec![pl(i32_()), FieldTy::Skipped, pl(str_()), FieldTy::Skipped])]), "skip: middle and last fields skipped");
+	add(prog(vec![st(vec![pl(nm(1)), pl(vec_(nm(1)))]), st(vec![FieldTy::Fixed(4), FieldTy::Skipped, FieldTy::Logical(Lg::Duration)])]), "skip: skipped field between fields that own named sub-nodes");
+	add(prog(vec![Def::Union { variants: vec![pl(i32_()), FieldTy::Skipped, pl(str_())], unit_at: Some(0) }]), "skip: skipped variant in a union enum");
+	add(prog(vec![st(vec![pl(nm(1))]), Def::Union { variants: vec![FieldTy::Skipped, FieldTy::Fixed(4), FieldTy::Fixed(4)], unit_at: None }]), "skip: skipped first variant before variant-owned fixed types");
+
 	// S8: recursion
 	let list = |p: Ptr| st(vec![pl(lf(Leaf::I64)), pl(opt(ptr(p, nm(0))))]);
 	for p in [Ptr::Box, Ptr::Rc, Ptr::Arc] {
